@@ -1043,8 +1043,63 @@ fn gen_reg(a: &HashMap<String, String>) {
         tw.write_all(b"\n").unwrap();
         nev += 1;
     }
+    // one large registry: more fields and more functions than fit into 16 bits, registered in bulk (one event each),
+    // a few ordinary registrations before, between and after (also of names the bulk took), probes at both ends and
+    // around 2^8 and 2^16
+    let big: usize = a.get("big").and_then(|s| s.parse().ok()).unwrap_or(66000);
+    if big > 0 {
+        let mut b = wirefilter::SchemeBuilder::new();
+        let mut ev = |tw: &mut BufWriter<File>, v: Value| {
+            serde_json::to_writer(&mut *tw, &v).unwrap();
+            tw.write_all(b"\n").unwrap();
+        };
+        ev(&mut tw, json!({"ev": "reset", "id": nev, "h": n}));
+        nev += 1;
+        let single = |b: &mut wirefilter::SchemeBuilder, op: Value, nev: &mut u64| -> Value {
+            let res = reg::apply_reg(b, &op);
+            *nev += 1;
+            json!({"ev": "add", "id": *nev - 1, "h": n, "op": op, "res": res})
+        };
+        let e = single(&mut b, json!({"op": "field", "name": "first", "ty": Ty::Int, "opt": false}), &mut nev);
+        ev(&mut tw, e);
+        for (kind, prefix, ty, opt) in [("field", "f", Ty::Bytes, true), ("func", "fn", Ty::Int, false)] {
+            let mut nok = 0usize;
+            for i in 0..big {
+                let op = if kind == "field" {
+                    json!({"op": "field", "name": format!("{prefix}{i}"), "ty": ty, "opt": opt})
+                } else {
+                    json!({"op": "func", "name": format!("{prefix}{i}")})
+                };
+                if reg::apply_reg(&mut b, &op) == "ok" {
+                    nok += 1;
+                }
+            }
+            ev(&mut tw, json!({"ev": "bulk", "id": nev, "h": n, "nok": nok,
+                               "op": {"kind": kind, "prefix": prefix, "n": big, "ty": ty, "opt": opt}}));
+            nev += 1;
+            let taken = format!("{prefix}{}", big - 1);
+            let e = single(&mut b, json!({"op": "field", "name": taken, "ty": Ty::Ip, "opt": false}), &mut nev);
+            ev(&mut tw, e);
+            let e = single(&mut b, json!({"op": "field", "name": format!("after.{kind}"), "ty": Ty::Ip, "opt": false}), &mut nev);
+            ev(&mut tw, e);
+        }
+        let s = b.build();
+        let mut names: Vec<String> = vec!["first".into(), "after.field".into(), "after.func".into(), "f".into(), "fn".into(), "nosuch".into()];
+        for i in [0usize, 1, 255, 256, 257, 65534, 65535, 65536, 65537, big - 1, big] {
+            if i <= big {
+                names.push(format!("f{i}"));
+                names.push(format!("fn{i}"));
+            }
+        }
+        let probes: Vec<Value> = names.iter().map(|p| {
+            std::panic::catch_unwind(std::panic::AssertUnwindSafe(|| reg::probe(&s, p))).unwrap_or_else(|_| json!({"name": p, "panic": true}))
+        }).collect();
+        let cl = s.clone();
+        ev(&mut tw, json!({"ev": "built", "id": nev, "h": n, "probes": probes, "summary": reg::summary(&s), "eq_clone": s == cl}));
+        nev += 1;
+    }
     tw.flush().unwrap();
-    println!("{}", serde_json::to_string(&json!({"events": nev, "histories": n})).unwrap());
+    println!("{}", serde_json::to_string(&json!({"events": nev, "histories": n, "big": big})).unwrap());
 }
 
 fn replay_panic_cmd(a: &HashMap<String, String>) -> i32 {
